@@ -16,6 +16,7 @@ import (
 
 var (
 	stateHdrRe = regexp.MustCompile(`^-+state (\d+)-+$`)
+	dotHeaderRe = regexp.MustCompile(`^(?:strict\s+)?digraph\s+([^\s"{]+)\s*\{`)
 	gotoRe     = regexp.MustCompile(`^at\s+(\S+)\s+goto\s+(-?\d+)\s*$`) // (column padding is layout, not content)
 	dotEdgeRe  = regexp.MustCompile(`^\s*state_(\d+)->state_(\d+)\[ label="((?:[^"\\]|\\.)*)" \];$`)
 	dotNodeRe  = regexp.MustCompile(`^\s*state_(\d+) \[ (.*) \];$`)
@@ -294,6 +295,14 @@ func execC18(ctx *Ctx, in *Input) *Result {
 		// ------------------------------------------------ the graph
 		if strings.HasPrefix(o.DotText, "PANIC") {
 			return fail("graph-panic", "drawing the automaton failed: %s", o.DotText)
+		}
+		// the text must open as a DOT graph: `digraph <ID> {` where an unquoted ID is a name, not one of DOT's keywords
+		if hm := dotHeaderRe.FindStringSubmatch(strings.TrimSpace(firstLines(strings.TrimSpace(o.DotText), 1))); hm == nil {
+			if strings.Contains(firstLines(o.DotText, 1), "graph") {
+				return fail("graph-header", "the graph does not open as a DOT digraph: %q", firstLines(o.DotText, 1))
+			}
+		} else if id := strings.ToLower(hm[1]); id == "node" || id == "edge" || id == "graph" || id == "digraph" || id == "subgraph" || id == "strict" {
+			return fail("graph-header", "the graph is named with the DOT keyword %q unquoted (%q): no DOT reader accepts the file", hm[1], firstLines(o.DotText, 1))
 		}
 		var gotEdges, wantEdges []string
 		nodeLabel := map[int]string{}
